@@ -14,7 +14,7 @@ Sibling cross-check of the constant folder (compiler/ast.rs) against the code ge
     value through the same constructor family.
 """
 from .. import cfg, flow, errflow, query, arms
-from ..facts import op_place
+from ..facts import op_place, norm_path
 
 EVAL_BINOP = "minijinja::compiler::ast::eval_binop"
 EVAL_COMPARE = "minijinja::compiler::ast::eval_compare"
@@ -320,6 +320,52 @@ def run(ctx):
                        "Result of %s in the folder is %s: a failing constant expression must fall back to run-time "
                        "evaluation" % (c.name, ds), f.where(c.bb))
     ctx.floor("C04.K3 operator calls in the folder", n3, 10)
+    # K3b: wherever else the AST module evaluates an operator at compile time (collection helpers, closures), a
+    # failure must make the *whole fold* give up (None up to as_const), never drop or replace the element: the
+    # closure holding the call may only be consumed by Option::and_then / Option::map, not by an iterator adaptor
+    # that swallows None (filter_map, flat_map, filter, find_map, flatten).
+    SWALLOW = ("::filter_map", "::flat_map", "::filter", "::find_map", "::flatten", "::map_while", "::take_while",
+               "::unwrap_or", "::unwrap_or_default", "::unwrap_or_else")
+    nk = 0
+    for g in prog.fns.values():
+        if not g.loc.f.endswith("minijinja/src/compiler/ast.rs"):
+            continue
+        ops_calls = [c for c in g.calls() if c.name.startswith("minijinja::value::ops::") and
+                     g.locals[c.dest["l"]].get("adt") == "core::result::Result"]
+        if not ops_calls:
+            continue
+        nk += 1
+        if g.kind != "closure":
+            continue
+        def consumers_of(cl):
+            out = []
+            for h in [x for x in prog.fns.values() if x.loc.f == cl.loc.f]:
+                for bb, i, st in h.all_stmts():
+                    rv = st.get("rv", {})
+                    if rv.get("k") == "agg" and rv.get("closure") and norm_path(rv["closure"]) == cl.path:
+                        for c in h.calls():
+                            if any(any(o.kind == "agg" and o.rv is rv for o in flow.origins(h, a)) for a in c.args):
+                                out.append((h, c))
+            return out
+        consumers = []
+        work = [g]
+        seen_cl = set()
+        while work:
+            cl = work.pop()
+            if cl.path in seen_cl:
+                continue
+            seen_cl.add(cl.path)
+            for h, c in consumers_of(cl):
+                consumers.append((h, c))
+                if h.kind == "closure":
+                    work.append(h)      # the Option travels on as the result of the enclosing closure
+        bad = [(h, c) for h, c in consumers if c.name.endswith(SWALLOW)]
+        ctx.ob("C04.K3.failed-fold-is-not-swallowed", g.path, bool(consumers) and not bad,
+               "a closure that evaluates %s at compile time is consumed by %s: when the operator fails the element "
+               "is silently dropped (or defaulted) instead of leaving the expression to run-time evaluation" % (
+                   sorted({c.name.split("::")[-1] for c in ops_calls}), [c.name.split("::")[-1] for _, c in (bad or consumers)]),
+               g.loc)
+    ctx.floor("C04.K3b functions of the AST module evaluating operators", nk, 3)
     # compile_expr: LoadConst(v) from as_const only under Some
     acs = ce.calls_to(AS_CONST)
     ctx.floor("C04.K3 as_const call in compile_expr", len(acs), 1)
